@@ -7,20 +7,28 @@ from geom import fd_glyphs_json
 from ufo import build, rat
 
 ID = "C01"
-PROOF_FILES = ["Geom", "Reverse", "Render", "RenderExact", "GoodCert", "C01", "C01Skip", "C01Codec", "TotalGeom", "TotalFilters", "TotalFilters2", "Total"]
+PROOF_FILES = ["Geom", "Reverse", "Render", "RenderExact", "GoodCert", "C01", "C01Skip", "C01Pre", "C01Codec", "TotalGeom", "TotalFilters", "TotalFilters2", "Total"]
 THEOREM = ("Ufo2ft.C01.C01_outline / C01_round / C01_advance / C01_codec_roundtrip / C01_codec_no_drift / C01_codec_integral / "
-           "C01_codec_charstring / C01_codec_cff2 / C01_codec_glyph (+ shared Geom/Reverse/Render theorems); TOTALITY (Props/Total*.lean): C01_preprocess_ok / C01_outline_total / C01_outline_skip_total - on every well-formed closed glyph set (wfCert) the model's pre-processing returns a result and the outline theorem holds of it, no '= .ok' hypothesis")
+           "C01_codec_charstring / C01_codec_cff2 / C01_codec_glyph / C01_outline_pre / C01_outline_pre_skip / C01_pre_irrelevant / C01_exported / "
+           "C01_exported_explicit_empty / C01_holdsExported (+ shared Geom/Reverse/Render theorems); TOTALITY (Props/Total*.lean): C01_preprocess_ok / C01_outline_total / C01_outline_skip_total - on every well-formed closed glyph set (wfCert) the model's pre-processing returns a result and the outline theorem holds of it, no '= .ok' hypothesis")
 N = {"quick": 250, "thorough": 5000}
 RULE = ("random fonts: closed contours of line / cubic / quadratic segments on a 1/8 grid with 30% half-integer and 25% negative "
         "coordinates (quadratics only with roundTolerance None/0.5 and only when no elevated control point is within 1e-6 of a rounding "
         "boundary, since the 2/3 elevation is floating point); component graphs of depth <= 6 with dyadic affine matrices incl. mirrors, "
         "shears, rotations (a separate share with singular matrices); fractional / half-integer / zero widths; skipExportGlyphs lists in "
-        "15% of the fonts; x ufoLib2/defcon x roundTolerance {None,0,0.25,0.5} x cffVersion {1,2}; compileOTF(optimizeCFF=0), saved and "
+        "15% of the fonts; WHO DECIDES WHAT IS EXPORTED (14% of the fonts): a non-empty public.skipExportGlyphs lib key in the UFO x the caller's "
+        "skipExportGlyphs= argument not passed (25%) / an explicit EMPTY list, set or tuple = 'export everything' (50%) / another explicit list (25%) - "
+        "the font's glyph set must be exactly the exported glyphs (argument if passed, else lib key); CUSTOM FILTERS (16%): an explicit "
+        "decomposeComponents PRE-filter restricted by include=/exclude= to a random subset of the glyphs (also empty), given in the UFO lib "
+        "filters key, as filters=[DecomposeComponentsFilter(...)] or as filters=[...] (ellipsis = load the lib's) - every glyph outside the "
+        "restriction must still come out fully resolved with mirrored components reversed; x ufoLib2/defcon x roundTolerance {None,0,0.25,0.5} x cffVersion {1,2}; compileOTF(optimizeCFF=0), saved and "
         "reloaded, every glyph drawn into a RecordingPen AND its raw charstring program read (CharStrings[name].decompile(); .program) and "
         "compared token for token - width operand, every delta, every operator, endchar - with the Lean model's charstring (cffProgram); the Lean "
         "Type 2 interpreter is run over every observed program and must draw what fontTools' interpreter drew and recover the hmtx advance. "
         "non-trivial = some glyph has a component chain of depth>=2 or a det<0 component, and some coordinate or width is a half-integer.")
-ASSUMED = ["unspecialised charstrings (optimizeCFF=0): the codec is no longer assumed - pen, program, interpreter and the CFF->CFF2 clean-up are modelled "
+ASSUMED = ["custom filters other than a (restricted) decomposeComponents pre-filter are not part of the model (their own properties: C02/C15); "
+           "custom POST-filters are not generated (they run on an already flat glyph set)",
+           "unspecialised charstrings (optimizeCFF=0): the codec is no longer assumed - pen, program, interpreter and the CFF->CFF2 clean-up are modelled "
            "and the round trip is proved (Props/C01Codec.lean); what remains assumed below that is fontTools' BINARY number encoding (28/32..254/255 "
            "16.16 fixed: exact on the generated 1/8..1/512 grids; measured on every font: in-memory program == program after save/reload) and that the "
            "doubles of the pen's subtractions / the interpreter's running sums are exact on those grids (the model computes in Q)",
@@ -65,6 +73,30 @@ def gen(rng, n, mode):
         skip = []
         if rng.random() < 0.15:
             skip = [nm for nm in names if rng.random() < 0.3]
+        # --- who decides which glyphs are exported: the UFO's public.skipExportGlyphs lib key x the caller's skipExportGlyphs=
+        # argument (not passed / explicit EMPTY list, set or tuple / explicit other list).  An explicit argument overrides the key.
+        libskip, skiparg, argkind = [], (list(skip) if skip else None), "list"
+        r = rng.random()
+        if r < 0.14:
+            libskip = [nm for nm in names if rng.random() < 0.35] or [rng.choice(names)]
+            k = rng.random()
+            if k < 0.5:
+                skiparg = []                                  # "export everything", whatever the lib says
+            elif k < 0.75:
+                skiparg = None                                # not passed: the lib key applies
+            else:
+                skiparg = [nm for nm in names if rng.random() < 0.3]
+            argkind = rng.choice(["list", "set", "tuple"])
+        # --- an explicit, restricted decomposeComponents PRE-filter (UFO lib key or filters= argument): the default full
+        # decomposition must still run over the glyphs outside the restriction
+        pre, previa = None, "lib"
+        if rng.random() < 0.16:
+            comp = [g["name"] for g in fd["glyphs"] if g["components"]]
+            sel = [nm for nm in names if rng.random() < 0.35]
+            if not sel and comp and rng.random() < 0.7:
+                sel = [rng.choice(comp)]
+            pre = [rng.choice(["include", "include", "exclude"]), sel]
+            previa = rng.choice(["lib", "lib", "arg", "arg..."])
         if mode == "search":
             r = rng.random()
             if r < 0.15:
@@ -72,7 +104,8 @@ def gen(rng, n, mode):
             elif r < 0.5:
                 for g in fd["glyphs"]:
                     g["width"] = rng.choice([0.5, 1.5, 2.5, 500.5, 1000.5, 3.5])
-        yield {"fd": fd, "tol": tol, "cff": rng.choice([1, 2]), "lib": rng.choice(["ufoLib2", "defcon"]), "skip": skip}
+        yield {"fd": fd, "tol": tol, "cff": rng.choice([1, 2]), "lib": rng.choice(["ufoLib2", "defcon"]), "skip": skip,
+               "libskip": libskip, "skiparg": skiparg, "argkind": argkind, "pre": pre, "previa": previa}
 
 
 def _ops(tt, name):
@@ -134,16 +167,40 @@ def _auto_widths(fd, skip):
         return [0, 0]
 
 
+FILTERS_KEY = "com.github.googlei18n.ufo2ft.filters"
+
+
+def _who(case):
+    """(lib key, argument or None = not passed, restricted pre-filter or None); replay files written before these streams
+    existed only have `skip` (passed as the argument when non-empty)"""
+    if "skiparg" in case:
+        return list(case.get("libskip") or []), (None if case["skiparg"] is None else list(case["skiparg"])), case.get("pre")
+    return [], (list(case["skip"]) if case["skip"] else None), None
+
+
 def run(case):
     import ufo2ft
     from fontTools.ttLib import TTFont
     fd = case["fd"]
+    libskip, skiparg, pre = _who(case)
+    if libskip or (pre and case.get("previa", "lib") != "arg"):
+        fd = dict(fd); fd["lib"] = dict(fd.get("lib") or {})
+        if libskip:
+            fd["lib"]["public.skipExportGlyphs"] = list(libskip)
+        if pre and case.get("previa", "lib") != "arg":
+            fd["lib"][FILTERS_KEY] = [{"name": "decomposeComponents", "pre": True, pre[0]: list(pre[1])}]
     font = build(fd, case["lib"])
     kw = {"useProductionNames": False, "optimizeCFF": 0, "cffVersion": case["cff"]}
     if case["tol"] is not None:
         kw["roundTolerance"] = case["tol"]
-    if case["skip"]:
-        kw["skipExportGlyphs"] = list(case["skip"])
+    if skiparg is not None:
+        kw["skipExportGlyphs"] = {"list": list, "set": set, "tuple": tuple}[case.get("argkind", "list")](skiparg)
+    if pre and case.get("previa", "lib") == "arg":
+        from ufo2ft.filters.decomposeComponents import DecomposeComponentsFilter
+        kw["filters"] = [DecomposeComponentsFilter(pre=True, **{pre[0]: list(pre[1])})]
+    elif pre and case.get("previa") == "arg...":
+        kw["filters"] = [...]              # the documented placeholder: "load the lib's filters here"
+    skip = libskip if skiparg is None else skiparg
     obs = {"err": None}
     try:
         tt = ufo2ft.compileOTF(font, **kw)
@@ -161,15 +218,16 @@ def run(case):
         obs = {"err": type(e).__name__}
     tol = 0.5 if case["tol"] is None else case["tol"]
     info = fd.get("info", {})
-    inp = {"tol": rat(tol), "glyphs": fd_glyphs_json(fd), "skip": case["skip"], "cff": case["cff"],
-           "auto": _auto_widths(fd, case["skip"]),
+    inp = {"tol": rat(tol), "glyphs": fd_glyphs_json(fd), "skiparg": skiparg, "libskip": libskip, "pre": pre, "cff": case["cff"],
+           "auto": _auto_widths(fd, skip),
            "infoD": None if info.get("postscriptDefaultWidthX") is None else rat(info["postscriptDefaultWidthX"]),
            "infoN": None if info.get("postscriptNominalWidthX") is None else rat(info["postscriptNominalWidthX"])}
     neg = any(t[0] * t[3] - t[1] * t[2] < 0 for g in fd["glyphs"] for _, t in g["components"])
     halves = any((p[0] * 2) % 2 == 1 or (p[1] * 2) % 2 == 1 for g in fd["glyphs"] for c in g["contours"] for p in c) or \
         any((g["width"] * 2) % 2 == 1 for g in fd["glyphs"])
     tags = ["tol:" + str(case["tol"]), "cff" + str(case["cff"]), case["lib"], "err:" + str(obs.get("err"))] + \
-        (["skip"] if case["skip"] else []) + (["det<0"] if neg else []) + (["halves"] if halves else [])
+        (["skip"] if skip else []) + (["libskip:arg=" + ("none" if skiparg is None else "empty" if not skiparg else "list")] if libskip else []) + \
+        (["pre:" + pre[0] + ":" + case.get("previa", "lib")] if pre else []) + (["det<0"] if neg else []) + (["halves"] if halves else [])
     return [{"op": "font", "in": inp, "obs": obs, "tags": tags, "nontrivial": neg and halves and obs.get("err") is None}]
 
 
@@ -219,6 +277,13 @@ def shrink(case):
             continue
         c = dict(case); c["fd"] = dict(case["fd"]); c["fd"]["glyphs"] = gl[:i] + gl[i + 1:]
         c["skip"] = [s for s in case["skip"] if s != nm]
+        for k in ("libskip", "skiparg"):
+            if case.get(k):
+                c[k] = [s for s in case[k] if s != nm]
+        if case.get("pre"):
+            c["pre"] = [case["pre"][0], [s for s in case["pre"][1] if s != nm]]
+        if case.get("libskip") and not c["libskip"]:
+            continue
         yield c
     for i, g in enumerate(gl):
         if len(g["contours"]) > 1:
@@ -230,8 +295,12 @@ def shrink(case):
                 c = dict(case); c["fd"] = dict(case["fd"]); g2 = dict(g); g2["components"] = g["components"][:j] + g["components"][j + 1:]
                 c["fd"]["glyphs"] = gl[:i] + [g2] + gl[i + 1:]
                 yield c
-    if case["skip"]:
+    if case["skip"] and "skiparg" not in case:
         c = dict(case); c["skip"] = []; yield c
+    if case.get("pre") and (case.get("libskip") or case.get("skiparg")):
+        c = dict(case); c["libskip"] = []; c["skiparg"] = None; c["skip"] = []; yield c
+    if case.get("pre") and (case.get("libskip") or case.get("skiparg")):
+        c = dict(case); c["pre"] = None; yield c
 
 
 LEVEL_TEXT = ("Proved (Lean, all inputs): the model of the CFF path (skip-export splice, full decomposition in the code's traversal order, "
@@ -239,7 +308,12 @@ LEVEL_TEXT = ("Proved (Lean, all inputs): the model of the CFF path (skip-export
               "the contours of the specification renderer (one composed matrix per leaf, reversed iff the composed determinant is negative) on "
               "acyclic non-singular glyph sets with closed contours; rounding = otRound for tolerance>=1/2 (halves up, also negative), identity "
               "for 0, and never moves a coordinate by more than the tolerance; advance = otRound(width), negative rejected. The charstring layer "
-              "(optimizeCFF=0) is proved too: T2CharStringPen rounds every ABSOLUTE point once and emits differences of rounded points, and the Type 2 "
+              "Also proved: an explicit decomposeComponents pre-filter with ANY include/exclude restriction changes nothing - the default full "
+              "decomposition still runs, every glyph inside or outside the restriction gets exactly the specified contours in order "
+              "(C01_outline_pre, C01_pre_irrelevant; with a skip list as a multiset: C01_outline_pre_skip); the skip list is the argument whenever one "
+              "is passed - an explicit empty one exports every glyph whatever the lib key says - and the lib key otherwise, and the kept glyph "
+              "names are exactly the exported ones (C01_exported, C01_exported_explicit_empty, C01_holdsExported). "
+              "The charstring layer (optimizeCFF=0) is proved too: T2CharStringPen rounds every ABSOLUTE point once and emits differences of rounded points, and the Type 2 "
               "interpreter (operand stack, width by operand parity, running sums, implicit closing) run over the stored program - CFF 1 with width "
               "operand and endchar, or CFF2 after fontTools' conversion - returns exactly those rounded absolute points for every well-formed outline "
               "of any size (C01_codec_roundtrip / _charstring / _cff2 / _glyph), so the error at any position is that of ONE rounding however many "
@@ -250,4 +324,8 @@ LEVEL_NOTE = ("Trusted: Lean kernel + standard axioms; correspondence harness; f
               "double arithmetic on the generated dyadic grids (the Type 2 command/program/interpreter layer itself is modelled and proved for "
               "unspecialised charstrings; specialised ones are C12's); quadratic elevation is float arithmetic "
               "(generator avoids rounding boundaries); singular components make contour direction traversal-dependent and are judged by the model "
-              "only; open contours / all-off-curve contours are outside the model.")
+              "only; open contours / all-off-curve contours are outside the model. The theorems about the restricted pre-filter pipeline "
+              "(preprocessF) carry the hypothesis that the model returns a result (the totality theorems of Props/Total*.lean cover the plain "
+              "pipeline only); that the lib filter dict / filters= argument / ellipsis is parsed into that pre-filter, and that "
+              "public.skipExportGlyphs is read from the lib only when no argument is passed, is tied to the code by the correspondence runs "
+              "(glyph set, every outline command and every charstring token compared), not proved about Python.")
